@@ -162,10 +162,13 @@ theorem DepP.parseR6rsChar (f : Nat) : DepP (parseR6rsChar f) := by
 
 theorem DepP.asChar (n : Nat) : DepP (asChar n) := by simp only [Parse.asChar]; depp
 
+theorem DepP.asEscapedChar (n : Nat) : DepP (asEscapedChar n) := by
+  simp only [Parse.asEscapedChar]; depp [DepP.asChar]
+
 theorem DepP.decodeElispCharEscape (f : Nat) : DepP (decodeElispCharEscape f) := by
   simp only [Parse.decodeElispCharEscape]
   depp [DepP.nextOrEofChar, DepP.nextOrEof, DepP.decodeElispHexEscape, DepP.decodeElispUniEscape,
-    DepP.decodeElispOctalEscape, DepP.asChar, DepP.decodeUtf8Sequence]
+    DepP.decodeElispOctalEscape, DepP.asChar, DepP.asEscapedChar, DepP.decodeUtf8Sequence]
 
 theorem DepP.parseElispChar (f : Nat) : DepP (parseElispChar f) := by
   simp only [Parse.parseElispChar]; depp [DepP.decodeUtf8Sequence, DepP.decodeElispCharEscape]
